@@ -212,8 +212,8 @@ def bare_ok(nodes, pos):
     if n0[0] == "g" and n0[1] == "{":
         return len(nodes) == 1
     if pos in ("field_bare", "field_member_bare"):
-        if n0[0] == "t" and (n0[1][0].isalpha() or n0[1][0] == "_" or n0[1].isdigit()):
-            return False
+        if n0[0] == "t" and (n0[1][0].isalpha() or n0[1][0] == "_" or n0[1][0].isdigit()):
+            return False      # an identifier or an integer literal (any radix) in first position is read as the member name / index
         if n0[0] == "p" and n0[1] in (":",):
             return False
     if any(n[0] == "p" and n[1] == "," for n in nodes) and pos in ("field_bare", "field_member_bare"):
@@ -331,4 +331,7 @@ def run(tier):
                     ck.violation(f"subst|{cls}|{pos}|{ent['kind']}", dict(input=src, expression=render(nodes), expected_run=common.detok(want_mid), first_difference=d, backend=backend))
                 elif len(ck.samples) < 4 and stats["depth"] >= 2 and stats["ph"] >= 2:
                     ck.sample(dict(position=pos, expression=render(nodes), kind=ent["kind"], substituted=common.detok(want_mid), backend=backend))
+    if tier == "thorough":
+        from vlib import cov
+        cov.report(ck, "C10", [c[3] for c in cases])
     return ck.finish()
